@@ -452,6 +452,15 @@ fn c20_serde_malformed(ctx: &mut Ctx) {
                 _ => ("unknown field in place of lo", de_map(vec![("hi", h), (nm, l)]).map_err(|e| e.to_string())),
             }
         }
+        5 if ctx.flag() => {
+            // exactly TWO entries with the same name (the values would form a valid pair)
+            match ctx.below(4) {
+                0 => ("two entries, both hi", de_map(vec![("hi", x.hi), ("hi", x.lo)]).map_err(|e| e.to_string())),
+                1 => ("two entries, both lo", de_map(vec![("lo", x.lo), ("lo", x.hi)]).map_err(|e| e.to_string())),
+                2 => ("two entries, both lo (hi first)", de_map(vec![("lo", x.hi), ("lo", x.lo)]).map_err(|e| e.to_string())),
+                _ => ("two entries, both hi (lo first)", de_map(vec![("hi", x.lo), ("hi", x.hi)]).map_err(|e| e.to_string())),
+            }
+        }
         5 => ("one-element sequence", de_seq_n(vec![h]).map_err(|e| e.to_string())),
         6 => ("empty sequence", de_seq_n(vec![]).map_err(|e| e.to_string())),
         7 => ("JSON duplicate field", serde_json::from_str::<TwoFloat>(&format!("{{\"hi\":{:e},\"lo\":{:e},\"lo\":{:e}}}", x.hi, x.lo, x.lo)).map_err(|e| e.to_string())),
